@@ -363,7 +363,7 @@ def main():
                 return any(x.split(':')[-1].strip()[:30] == w[0].split(':')[-1].strip()[:30] for x in ww) or bool(ww)
             small = shrink(pid, cfg, s, pred)
             ww, d, _, _ = eval_scenario(pid, cfg, small, use_model=not any(l[0] == 'tick' for l in small))
-            text = json.dumps(ww)
+            text = json.dumps(ww) + '\n' + scen.to_text(small)
             k = match_known(pid, text, known)
             if k:
                 known_lines.append(f'KNOWN-FINDING: property={pid} {k["what"]}')
